@@ -114,7 +114,7 @@ class MixedInitialize(InitializeMixed):
                 basis = np.zeros(2**self._num_ctrl_qubits)
                 basis[index] = 1
 
-                pure_state += np.kron(np.sqrt(prob) * state_vector, basis)
+                pure_state += np.kron(np.sqrt(prob) * np.asarray(state_vector), basis)
 
             purified_circuit = self._initializer(
                 pure_state,
